@@ -65,8 +65,9 @@ Qed.
 
 Lemma htfile_eqb_eq a b : htfile_eqb a b = true -> a = b.
 Proof.
-  unfold htfile_eqb. intros H. apply andb_true_iff in H as [H H3]. apply andb_true_iff in H as [H1 H2].
-  apply Bool.eqb_prop in H1. apply Bool.eqb_prop in H3. apply users_eqb_eq in H2.
+  unfold htfile_eqb. intros H. apply andb_true_iff in H as [H H4]. apply andb_true_iff in H as [H H3].
+  apply andb_true_iff in H as [H1 H2].
+  apply Bool.eqb_prop in H1. apply Bool.eqb_prop in H3. apply users_eqb_eq in H2. apply users_eqb_eq in H4.
   destruct a, b; simpl in *. subst. reflexivity.
 Qed.
 
@@ -1661,14 +1662,14 @@ Lemma prefix_lock_refuted :
     fst (fst (get_matcher_gen false e' g1 f u)) = RHang /\
     fst (fst (get_matcher_gen false e' g0 f u)) = ROk.
 Proof.
-  exists [], [(2, {| h_present := true; h_users := [(1, 1)]; h_bad := false |})], 2, 1.
+  exists [], [(2, {| h_present := true; h_users := [(1, 1)]; h_bad := false; h_after := [] |})], 2, 1.
   eexists. vm_compute. repeat split; reflexivity.
 Qed.
 
 (* ------------------------------------------------------------------ witnesses against the full frame *)
 Definition mkcfg (id : N) (effs : list effect) (addrs : list addr) : cfg :=
   {| c_id := id; c_parse := PNone; c_effs := effs; c_addrs := addrs |}.
-Definition users (l : list (N * N)) : htfile := {| h_present := true; h_users := l; h_bad := false |}.
+Definition users (l : list (N * N)) : htfile := {| h_present := true; h_users := l; h_bad := false; h_after := [] |}.
 
 Lemma frame_refuted :
   (* roller settings of a rejected configuration are registered *)
@@ -2217,4 +2218,92 @@ Proof.
   eexists. eexists. split; [vm_compute; reflexivity|]. split.
   - eapply (run_wf [OAttempt Load (mkcfg 1 [] [AEph 1])] 1 [] g0 _ _ _ wf_g0). vm_compute. reflexivity.
   - split; [reflexivity|]. split; [eexists; reflexivity|]. split; [vm_compute; reflexivity|]. split; reflexivity.
+Qed.
+
+(* ---------------------------------------------------------------- a rejected htpasswd file stays rejected *)
+(* GetHtpasswdMatcher asked twice with the file untouched answers twice the same; a file with a damaged line is
+   rejected and leaves the table exactly as it was (nothing of it is stored, not even the entries in front of
+   the damaged line) *)
+Lemma rejected_htpasswd_stays_rejected e g f u r g' o :
+  g_htlock g = false -> cache_ok g -> get_matcher e g f u = (r, g', o) ->
+  (exists g'', get_matcher e g' f u = (r, g'', o) /\ cache_ok g'') /\
+  (h_present (env_get e f) = true -> h_bad (env_get e f) = true ->
+   r = RErr /\ o = None /\ g_htcache g' = g_htcache g /\ g_htlock g' = false).
+Proof.
+  intros L C H.
+  destruct (matcher_answers_from_the_file e g f u r g' o L C H) as (A & SB & C1).
+  split.
+  - destruct (get_matcher e g' f u) as [[r2 g2] o2] eqn:H2.
+    assert (L1 : g_htlock g' = false) by (destruct SB as (_ & _ & X & _); rewrite X; exact L).
+    destruct (matcher_answers_from_the_file e g' f u r2 g2 o2 L1 C1 H2) as (A2 & _ & C2).
+    rewrite <- A in A2. injection A2 as -> ->. exists g2. split; [reflexivity|exact C2].
+  - intros P B. unfold get_matcher, get_matcher_gen in H. rewrite L, P in H. simpl in H.
+    destruct (assoc f (g_htcache g)) as [h'|] eqn:AS.
+    + destruct (htfile_eqb h' (env_get e f)) eqn:E.
+      * apply htfile_eqb_eq in E. subst h'. destruct (C _ _ AS) as [_ B']. rewrite B in B'. discriminate.
+      * rewrite B in H. injection H as <- <- <-. auto.
+    + rewrite B in H. injection H as <- <- <-. auto.
+Qed.
+
+(* after a rejected attempt every attempt (any mode, any configuration - the SAME one in particular - with the
+   files untouched) has exactly the outcome it has without the rejected attempt *)
+Lemma retry_after_rejected m step e c g r g' :
+  wf g -> attempt m step e c g = (r, g') -> r <> ROk ->
+  same_but_leaks g g' /\
+  forall m2 step2 v r2 ga, attempt m2 step2 e v g = (r2, ga) ->
+  exists gb, attempt m2 step2 e v g' = (r2, gb) /\ same_but_leaks ga gb.
+Proof.
+  intros W A NR.
+  assert (R : run step [OAttempt m c] (e, g) = ([r], (e, g'))) by (simpl; rewrite A; reflexivity).
+  assert (F : attempts_failed [OAttempt m c] [r]) by (simpl; auto).
+  destruct (valid_after_failures_without_rollers [OAttempt m c] step e g [r] e g' W R F) as (SB & _ & K).
+  split; [exact SB|]. intros m2 step2 v r2 ga A2. simpl in K. exact (K m2 step2 v r2 ga A2).
+Qed.
+
+(* the variant that stores the table entry before it parses the file is the same function on every file
+   without a damaged line ... *)
+Lemma early_cache_same_on_wellformed e g f u :
+  h_bad (env_get e f) = false -> get_matcher_early e g f u = get_matcher e g f u.
+Proof.
+  intros B. unfold get_matcher_early, get_matcher, get_matcher_gen, parse_ht. simpl negb.
+  destruct (g_htlock g); [reflexivity|].
+  destruct (negb (h_present (env_get e f))); [reflexivity|].
+  destruct (assoc f (g_htcache g)) as [h'|].
+  - destruct (htfile_eqb h' (env_get e f)); [reflexivity|]. rewrite B. reflexivity.
+  - rewrite B. reflexivity.
+Qed.
+
+Definition ht_damaged (before after : list (N * N)) : htfile :=
+  {| h_present := true; h_users := before; h_bad := true; h_after := after |}.
+
+(* ... and on a file with a damaged line it remembers the rejected file: the second attempt on the untouched file
+   is ACCEPTED for a user in front of the damaged line (and knows nobody behind it), in a state no history of the
+   real function reaches *)
+Lemma early_cache_refuted :
+  exists e f u u2 g1,
+    eff_valid e (EAuth f u) = false /\
+    get_matcher_early e g0 f u = (RErr, g1, None) /\
+    get_matcher_early e g1 f u = (ROk, g1, Some 1) /\
+    get_matcher_early e g1 f u2 = (RErr, g1, None) /\ assoc u2 (h_after (env_get e f)) = Some 1 /\
+    ~ cache_ok g1 /\
+    (exists g1', get_matcher e g0 f u = (RErr, g1', None) /\ fst (fst (get_matcher e g1' f u)) = RErr /\
+                 g_htcache g1' = []).
+Proof.
+  exists [(2, ht_damaged [(1, 1)] [(2, 1)])], 2, 1, 2. eexists.
+  split; [reflexivity|]. split; [vm_compute; reflexivity|]. split; [vm_compute; reflexivity|].
+  split; [vm_compute; reflexivity|]. split; [reflexivity|]. split.
+  - intros C. destruct (C 2 (ht_damaged [(1, 1)] [(2, 1)]) eq_refl) as [_ B]. discriminate.
+  - eexists. split; [vm_compute; reflexivity|]. split; vm_compute; reflexivity.
+Qed.
+
+Lemma rejected_stays_rejected_witness :
+  let e := [(2, ht_damaged [(1, 1)] [(2, 1)])] in
+  let c := mkcfg 1 [EOn 1; EAuth 2 1] [AEph 1] in
+  exists g1 g2 g3 g4,
+    attempt Load 1 e c g0 = (RErr, g1) /\ attempt Load 2 e c g1 = (RErr, g2) /\
+    attempt Validate 3 e c g2 = (RErr, g3) /\ g_htcache g3 = [] /\
+    attempt Load 4 e (mkcfg 2 [EAuth 2 2] [AEph 1]) g3 = (RErr, g4) /\ wf g0.
+Proof.
+  do 4 eexists. split; [vm_compute; reflexivity|]. split; [vm_compute; reflexivity|].
+  split; [vm_compute; reflexivity|]. split; [reflexivity|]. split; [vm_compute; reflexivity|exact wf_g0].
 Qed.
